@@ -4,7 +4,8 @@
    only the answer DMissing continues.  That the oracle is consulted with the CONFIGURED store and the SP's INJECTED clock is
    tied by the correspondence run (the harness computes the oracle answers with exactly that store and clock, certificates
    valid only around the fake clock).  The certificate rules themselves live in goxmldsig (see Dsig.v when present). *)
-From V Require Import Base Time Xml Ns Types Profile Decode Response P_Ns P_Response.
+From Coq Require Import Permutation.
+From V Require Import Base Time Escape Xml Ns Types Profile Decode Response P_Ns P_Response Dsig P_Dsig.
 
 Theorem C02_bad_response_signature_fatal : forall dsig decrypt cfg now root,
   cfg_skip_sig cfg = false -> dsig root = DErr ->
@@ -33,3 +34,47 @@ Theorem C02_response_honoured_as_signed_only_if_oracle_verified : forall dsig de
   (r_signature_validated r = true <-> exists v, dsig root = DOk v).
 Proof. exact response_flag_iff. Qed.
 Print Assumptions C02_response_honoured_as_signed_only_if_oracle_verified.
+
+(* ---- the certificate rules themselves, on the model of the pinned signature library (Dsig.v; correspondence-checked
+   against the real goxmldsig by the DSIG stream that this check runs as well) ---- *)
+
+(* complete characterisation: a signature's certificate is honoured iff it is designated (KeyInfo certificate that parses and
+   is byte-equal to a store member; or, with no KeyInfo, the single member of a one-certificate store) and the SP clock lies
+   inside that certificate's validity period *)
+Theorem C02_certificate_rule : forall parse_cert store now sg c,
+  verify_certificate parse_cert store now sg = Ok c <->
+  exists u, Designates parse_cert store sg u /\ pick_root store u = Some c /\ InWindow c now.
+Proof. exact verify_cert_iff. Qed.
+Print Assumptions C02_certificate_rule.
+
+Theorem C02_honoured_certificate_is_store_member_in_window : forall parse_cert store now sg c,
+  verify_certificate parse_cert store now sg = Ok c ->
+  In c store /\ InWindow c now /\
+  ((exists data rest der u, sg_keyinfo sg = Some (data :: rest) /\ base64_decode (strip_space data) = Some der /\
+                            parse_cert der = Some u /\ c_der c = c_der u)
+   \/ (sg_keyinfo sg = None /\ store = [c])).
+Proof. exact verify_cert_ok. Qed.
+Print Assumptions C02_honoured_certificate_is_store_member_in_window.
+
+(* any member of a multi-certificate store is honoured equally: the order of the store is irrelevant *)
+Theorem C02_store_order_irrelevant : forall parse_cert store store' now sg,
+  Permutation store store' -> Coherent store ->
+  verify_certificate parse_cert store now sg = verify_certificate parse_cert store' now sg.
+Proof. exact store_order_irrelevant. Qed.
+Print Assumptions C02_store_order_irrelevant.
+
+Theorem C02_validity_window_is_inclusive : forall c,
+  ibefore (c_not_after c) (c_not_before c) = false ->
+  cert_valid_at c (c_not_before c) = true /\ cert_valid_at c (c_not_after c) = true /\
+  (forall now, ibefore now (c_not_before c) = true -> cert_valid_at c now = false) /\
+  (forall now, iafter now (c_not_after c) = true -> cert_valid_at c now = false).
+Proof. exact window_is_inclusive. Qed.
+Print Assumptions C02_validity_window_is_inclusive.
+
+(* 'missing signature' comes from the signature search only: no certificate, signature, digest or parse failure is ever
+   reported as missing (and thereby downgraded to 'unsigned') *)
+Theorem C02_only_absence_is_reported_as_missing : forall canon digest sig_ok parse_cert reparse store now root,
+  dsig_validate canon digest sig_ok parse_cert reparse store now root = DMissing <->
+  exists root' lim', find_run root = Ok (root', lim', None).
+Proof. exact missing_signature_iff. Qed.
+Print Assumptions C02_only_absence_is_reported_as_missing.
